@@ -103,7 +103,9 @@ def eighA [Neg R] (K : Kernels R) (a : Arr R) : Except Err (BVec R × Arr R) := 
   pure (⟨evals⟩, { a with blocks := evecs })
 
 /-- `solve(a, b)` (and `solve_fermionic`) for a matrix `a` and a rank-1 array `b` -/
-def solveA (K : Kernels R) (a b : Arr R) : Except Err (Arr R) := do
+def solveA [Neg R] (K : Kernels R) (a b : Arr R) : Except Err (Arr R) := do
+  let a := if a.fermi && !a.phases.isEmpty then a.phaseSync else a
+  let b := if a.fermi && !b.phases.isEmpty then b.phaseSync else b
   if a.ndim != 2 || b.ndim != 1 then throw Err.notimpl
   -- numpy's solve raises LinAlgError (a ValueError) on a non-square or mismatching block
   if a.blocks.any (fun (s, arr) => (alookup b.blocks [s.getD 0 (0, 0)]).isSome
